@@ -187,6 +187,10 @@ impl Subject for C03 {
             v.push(Op::Complete { i, err: false });
         }
         let mut adv = vec![1, MAX_RT + 1, INTERVAL as u64 / 2, INTERVAL as u64];
+        if self.cfg.rules.iter().any(|r| r.strat == Strat::SlowRequestRatio) {
+            // a response time of EXACTLY max_allowed_rt is not slow
+            adv.push(MAX_RT);
+        }
         for r in &self.cfg.rules {
             adv.push(r.retry as u64);
             adv.push(r.retry as u64 - 1);
